@@ -146,6 +146,14 @@ theorem reduce_src_aux {code Os P o fr G0 px S c ws es}
       refine .head (c' := .run pfk (.v v :: S) F true (some (.plain ee)) R1' fr o 0) (by simp [step]) ?_
       exact Steps.one (by simp [step, hfork])
 
+theorem guardND_of_nd {r k : Res} (h : ND r.stop) : guardND r k = k := by
+  rcases r with ⟨o, st⟩
+  cases st <;> simp_all [guardND, ND]
+
+theorem nd_of_guardND {r k : Res} (h : ND (guardND r k).stop) : ND r.stop := by
+  rcases r with ⟨o, st⟩
+  cases st <;> simp_all [guardND, ND]
+
 theorem eval_reduce_nd_left {defs n g ρ x src init upd v} (h : ND (eval defs (n+1) g ρ (.reduce x src init upd) v).stop) :
     ND (eval defs n g ρ init v).stop := by
   simp only [eval] at h
@@ -156,10 +164,9 @@ theorem eval_reduce_nd_left {defs n g ρ x src init upd v} (h : ND (eval defs (n
 theorem eval_reduce_of_nd {defs n g ρ x src init upd v} (h : ND (eval defs n g ρ init v).stop) :
     eval defs (n+1) g ρ (.reduce x src init upd) v =
       Res.bindL (fun s0 =>
-        match (eval defs n g ρ src v).stop with
-        | .diverge => ⟨[], .diverge⟩
-        | _ => reduceL (fun w s => eval defs n g ⟨ρ.clo, (x, w) :: ρ.vars⟩ upd s)
-                 (eval defs n g ρ src v).stop (eval defs n g ρ src v).outs s0)
+        guardND (eval defs n g ρ src v)
+          (reduceL (fun w s => eval defs n g ⟨ρ.clo, (x, w) :: ρ.vars⟩ upd s)
+            (eval defs n g ρ src v).stop (eval defs n g ρ src v).outs s0))
         (eval defs n g ρ init v).outs (eval defs n g ρ init v).stop := by
   simp only [eval]
   generalize eval defs n g ρ init v = ri at h
@@ -238,10 +245,9 @@ theorem cy_reduce {code defs entry nf n} (hfun : FuncsOK code defs entry nf) (ih
     (fun h => hpar (Or.inr (Or.inl h))) (fun a h => by have := hP a h; omega) henv (by rw [hci]; omega) hndi
   rw [hci, hpst] at yi
   have := Yields.bind (R0 := R)
-    (f := fun s0 => match (eval defs n g ρ src v).stop with
-      | .diverge => (⟨[], .diverge⟩ : Res)
-      | _ => reduceL (fun w s => eval defs n g ⟨ρ.clo, (x, w) :: ρ.vars⟩ upd s)
-               (eval defs n g ρ src v).stop (eval defs n g ρ src v).outs s0)
+    (f := fun s0 => guardND (eval defs n g ρ src v)
+      (reduceL (fun w s => eval defs n g ⟨ρ.clo, (x, w) :: ρ.vars⟩ upd s)
+        (eval defs n g ρ src v).stop (eval defs n g ρ src v).outs s0))
     (Oa := Own (base fr) e (p+1) ci.length)
     (Ob := Own (base fr) e pst (2 + cs.length + 2 + cu.length + 4))
     (O := Own (base fr) e p (1 + ci.length + 2 + cs.length + 2 + cu.length + 4))
@@ -253,20 +259,8 @@ theorem cy_reduce {code defs entry nf n} (hfun : FuncsOK code defs entry nf) (ih
     (by intro i h; have := hP i h; refine ⟨by omega, ?_⟩; intro h'; obtain ⟨j, h1, h2, h3⟩ := h'; omega)
     yi
     (fun s0 G R' o1 cp' ho1 hR' hs0 => by
-      have hnds : ND (eval defs n g ρ src v).stop := by
-        generalize eval defs n g ρ src v = rsrc at hs0
-        rcases rsrc with ⟨osrc, ssrc⟩
-        cases ssrc <;> simp_all [ND]
-      have hf : (match (eval defs n g ρ src v).stop with
-          | .diverge => (⟨[], .diverge⟩ : Res)
-          | _ => reduceL (fun w s => eval defs n g ⟨ρ.clo, (x, w) :: ρ.vars⟩ upd s)
-                   (eval defs n g ρ src v).stop (eval defs n g ρ src v).outs s0) =
-          reduceL (fun w s => eval defs n g ⟨ρ.clo, (x, w) :: ρ.vars⟩ upd s)
-                   (eval defs n g ρ src v).stop (eval defs n g ρ src v).outs s0 := by
-        generalize eval defs n g ρ src v = rsrc at hnds
-        rcases rsrc with ⟨osrc, ssrc⟩
-        cases ssrc <;> simp_all [ND]
-      simp only [hf] at hs0 ⊢
+      have hnds : ND (eval defs n g ρ src v).stop := nd_of_guardND hs0
+      simp only [guardND_of_nd hnds] at hs0 ⊢
       let R'' := R'.set rs (.v s0)
       have hR'' : EqOn P R' R'' := by
         intro a ha; simp only [R'', Regs.set]; split
